@@ -12,6 +12,9 @@
 //!          expected: ok ; primlat … primmom … ; ptlinear ; ushift ; stdlat … stdmom … ; tlinear ; tshift ; rot ; sitemap
 //!
 //!   mag-id-gen <tier> <out> [<part> <nparts>]
+//!   mag-id-noisy <uni> <radius/symprec> [<combo 0..3>]   (probe, not used by a check: a generated crystal of the UNI number
+//!        with every atom displaced by at most radius, through the real `MoyoMagneticDataset::new`; prints the `mds` line
+//!        that the Lean oracles of C11-C13 judge)
 //! Cases (every random choice from a generator seeded by (seed, uni): partitioned runs give the same lines):
 //!   table part, for EVERY UNI number u = 1..1651: the tabulated primitive operations (`t<u>`, with `row u`), the same
 //!     operations re-based by a random unimodular matrix and origin shift (`t<u>-re`, `row u`), with translations perturbed
@@ -313,8 +316,9 @@ pub fn gen(tier: &str, seed: u64, out: &str, part: usize, nparts: usize) {
     w.finish();
 }
 
-/// dev: `mag-id-noisy <uni> <radius/symprec> <combo 0..3>`: a generated crystal of the UNI number with atoms displaced by at
-/// most radius, through the real pipeline; prints the `mds` line for the Lean oracle.
+/// `mag-id-noisy <uni> <radius/symprec> [<combo 0..3>]`: a generated crystal of the UNI number with atoms displaced by at
+/// most radius (and the lattice strained by the same relative size, `gen::Crystal::noise`), through the real pipeline;
+/// prints the `mds` line for the Lean oracles.
 fn noisy(seed: u64, u: i32, rel: f64, combo: usize) {
     use moyo::base::RotationMagneticMomentAction as A;
     let combos = [(Kind::NonCollinear, A::Axial), (Kind::Collinear, A::Polar), (Kind::NonCollinear, A::Polar), (Kind::Collinear, A::Axial)];
